@@ -828,6 +828,7 @@ func TestZZReplay(t *testing.T) {
 					skips[cl.Where] = r
 				}
 			}
+			//ZZREL//
 		}()
 	}
 	out := map[string]interface{}{"evaluated": evaluated, "distinct_nontrivial": len(distinct), "skipped_by_requires": inadmissible, "clauses_not_executable": skips, "failures": failures}
@@ -853,6 +854,7 @@ func zzClauseReq(x *zzExpr, env *zzEnv) string {
 		strings.Join(drains, "\n\t\t\t"), strings.Join(settleT, ", "), strings.Join(settleW, ", "),
 		consts, strings.Join(envVars, ", "), strings.Join(consumedVars, ", "), strings.Join(closedVars, ", "), strings.Join(outDoc, ", "))
 	src := sb.String()
+	src = strings.Replace(src, "//ZZREL//", e.relReplayBlock(fi, g), 1)
 	if !strings.Contains(src, "strings.") {
 		return src, ""
 	}
@@ -989,4 +991,70 @@ func (e *Engine) runOverlayTestOut(pkg, fileName, src, run string, env []string)
 	out, _ := cmd.CombinedOutput()
 	data, _ := os.ReadFile(outFile)
 	return string(out), string(data)
+}
+
+// relReplayBlock: for a strategy with relational clauses, the harness runs Compute a second time on the same snapshots
+// with every price (relation "price") or every volume (relation "volume") multiplied by 4 - a power of two, for which
+// IEEE arithmetic is exactly scale-covariant - and compares the two action streams position by position.
+func (e *Engine) relReplayBlock(fi *FuncInfo, g *rgen) string {
+	labels := relLabels(fi.Contract)
+	if len(labels) == 0 {
+		return ""
+	}
+	sig := fi.Obj.Type().(*types.Signature)
+	if sig.Recv() == nil || sig.Params().Len() != 1 || sig.Results().Len() != 1 {
+		return ""
+	}
+	pch, ok := sig.Params().At(0).Type().Underlying().(*types.Chan)
+	if !ok || !isSnapshotPtr(pch.Elem()) {
+		return ""
+	}
+	rch, ok := sig.Results().At(0).Type().Underlying().(*types.Chan)
+	if !ok {
+		return ""
+	}
+	aq := "zz_asset."
+	if g.pkgPath == modPath+"/asset" {
+		aq = ""
+	}
+	name := sig.Params().At(0).Name()
+	var ls []string
+	for _, l := range labels {
+		if l == "price" || l == "volume" {
+			ls = append(ls, fmt.Sprintf("%q", l))
+		}
+	}
+	if len(ls) == 0 {
+		return ""
+	}
+	return fmt.Sprintf(`for _, zzRel := range []string{%s} {
+				in2 := make([]*%sSnapshot, len(in_%s))
+				for i, s := range in_%s {
+					c := *s
+					if zzRel == "price" {
+						c.Open, c.High, c.Low, c.Close = 4*c.Open, 4*c.High, 4*c.Low, 4*c.Close
+					} else {
+						c.Volume = 4 * c.Volume
+					}
+					in2[i] = &c
+				}
+				var taken2 int64
+				r2 := recv.%s(zzFeedT[*%sSnapshot](in2, &taken2))
+				var wg2 sync.WaitGroup
+				col2 := &zzCollector{}
+				zzDrain(r2, col2, &wg2, func(v %s) float64 { return float64(v) })
+				if !zzWait(&wg2, 2*time.Second) {
+					continue
+				}
+				same := len(col2.vals) == len(col0.vals)
+				for i := 0; same && i < len(col0.vals); i++ {
+					if col2.vals[i] != col0.vals[i] {
+						same = false
+					}
+				}
+				if !same {
+					failures = append(failures, failure{Kind: "rel", Label: %q + zzRel, Text: "the recommendations change when every " + zzRel + " is multiplied by 4", Config: cfg, Inputs: inputs, Outputs: map[string]interface{}{"result": col0.vals, "result_scaled_inputs": col2.vals}})
+					return
+				}
+			}`, strings.Join(ls, ", "), aq, name, name, fi.Decl.Name.Name, aq, g.typeStr(rch.Elem()), fi.Key+"/rel:")
 }
